@@ -29,7 +29,9 @@ def harness_fault():
 def cases(draw, tier="quick"):
     kind = draw(st.sampled_from(["readers", "readers", "readers", "cz", "xw", "failcopy", "xwfail"]))
     case = dict(kind=kind, pool=draw(st.sampled_from(list(range(9)) + [6, 7])), dot=draw(st.booleans()))
-    opst = st.tuples(st.sampled_from(["inode", "lsdir", "lspart", "resolve", "read", "block", "frag", "stream", "xattr", "xdesc", "id", "mseek", "root", "cross"]),
+    opst = st.tuples(st.sampled_from(["inode", "lsdir", "lspart", "resolve", "read", "block", "frag", "stream", "xattr", "xdesc", "id", "mseek", "root", "cross",
+                                      # cursors that are continued, not restarted: the copy must stand where the original stood
+                                      "rawls", "rawcont", "rawcont", "mcont", "mcont"]),
                      st.integers(0, 10 ** 6), st.integers(0, 10 ** 6), st.integers(0, 10 ** 6), st.integers(1, 9))
     if kind == "readers":
         case["pre"] = draw(st.lists(opst, min_size=0, max_size=12))
